@@ -83,12 +83,16 @@ static void arbitrary_buf(void)
   B->alloc_buf     = store;
   B->alloc_buf_len = AL;
   B->data          = store;
-#  ifdef DLO
+#  if defined(DLO) && DLO == DHI
+  B->data_len = DLO; /* grid point */
+#  elif defined(DLO)
   B->data_len = vp_range(DLO, DHI); /* job covers this slice of the data_len range */
 #  else
   B->data_len = vp_range(0, AL - 1);
 #  endif
-#  ifdef OFF
+#  if defined(OFF_END)
+  B->offset = B->data_len; /* everything consumed */
+#  elif defined(OFF)
   B->offset = OFF;
 #  else
   B->offset = vp_range(0, AL - 1);
@@ -173,8 +177,10 @@ static void expect_views(const unsigned char *x, size_t k)
     size_t               tl = 99;
     const unsigned char *t  = ares_buf_tag_fetch(B, &tl);
     VP_ASSERT(B->tag_offset == S_tag - dropped, "tag moved with the data");
-    VP_ASSERT(t != NULL && tl == S_off - S_tag, "tagged span length kept");
-    if (i < tl)
+    /* a never-allocated buffer has data == NULL, so its (empty) tagged span is reported as NULL */
+    VP_ASSERT((t != NULL) == (B->data != NULL), "tagged span present iff the buffer has storage");
+    VP_ASSERT(t == NULL || tl == S_off - S_tag, "tagged span length kept");
+    if (t != NULL && i < tl)
       VP_ASSERT(t[i] == S_bytes[S_tag + i], "tagged bytes kept (reclaim respects the tag)");
   }
 }
@@ -286,16 +292,23 @@ void harness(void)
         VP_ASSERT(p == NULL, "append_start refused on a const buffer / zero length");
         expect_unchanged();
       } else {
-        size_t w = vp_range(0, KMAX);
+        unsigned how = vp_u8() % 3; /* write nothing / what was asked for / everything that was offered */
+        size_t   w   = (how == 0) ? 0 : want;
         VP_ASSERT(p != NULL, "append_start succeeds");
         VP_ASSERT(len >= want, "offered space >= requested");
         VP_ASSERT(len == B->alloc_buf_len - B->data_len - 1, "offered space leaves the NUL reserve");
         VP_ASSERT(p == B->alloc_buf + B->data_len, "write position is the end of data");
-        VP_ASSUME(w <= len); /* caller contract of append_finish */
-        for (i = 0; i < w; i++)
-          p[i] = x[i];
-        ares_buf_append_finish(B, w);
-        expect_views(x, w);
+        if (how == 2) { /* arithmetic of a completely used offer (bytes themselves are not the point here) */
+          ares_buf_append_finish(B, len);
+          VP_ASSERT(inv(B) && B->data_len == B->alloc_buf_len - 1, "a fully used offer still leaves the NUL reserve");
+          VP_ASSERT(ares_buf_len(B) == rem0 + len, "unread length grew by the written count");
+          VP_WITNESS("offer fully used");
+        } else {
+          for (i = 0; i < w; i++)
+            p[i] = x[i];
+          ares_buf_append_finish(B, w);
+          expect_views(x, w);
+        }
       }
       break;
     }
@@ -373,7 +386,7 @@ void harness(void)
       const unsigned char *t;
       n = 99;
       t = ares_buf_tag_fetch(B, &n);
-      if (S_tag == UNSET) {
+      if (S_tag == UNSET || AL == 0) { /* AL == 0: data is NULL, so the empty span is reported as NULL */
         VP_ASSERT(t == NULL, "tag_fetch without a tag is NULL");
         VP_ASSERT(ares_buf_tag_length(B) == 0, "tag_length without a tag is 0");
       } else {
@@ -387,7 +400,7 @@ void harness(void)
       size_t cap = vp_range(0, OUTMAX);
       n          = cap;
       st         = ares_buf_tag_fetch_bytes(B, out, &n);
-      if (S_tag == UNSET || cap < S_off - S_tag) {
+      if (S_tag == UNSET || AL == 0 || cap < S_off - S_tag) {
         VP_ASSERT(st != ARES_SUCCESS, "tag_fetch_bytes refused (no tag / output too small)");
         for (i = 0; i < OUTMAX; i++)
           VP_ASSERT(out[i] == 0xEE, "output untouched on refusal");
@@ -405,7 +418,7 @@ void harness(void)
     case 13: { /* tag_fetch_string */
       size_t cap = vp_range(0, OUTMAX);
       st         = ares_buf_tag_fetch_string(B, (char *)out, cap);
-      if (cap == 0 || S_tag == UNSET || cap - 1 < S_off - S_tag) {
+      if (cap == 0 || S_tag == UNSET || AL == 0 || cap - 1 < S_off - S_tag) {
         VP_ASSERT(st != ARES_SUCCESS, "tag_fetch_string refused (no tag / no room for text + NUL)");
         for (i = 0; i < OUTMAX; i++)
           VP_ASSERT(out[i] == 0xEE, "output untouched on refusal");
@@ -431,7 +444,7 @@ void harness(void)
       char *s = NULL;
       VP_ASSUME(S_tag == UNSET || S_off - S_tag <= 7);
       st = ares_buf_tag_fetch_strdup(B, &s);
-      if (S_tag == UNSET) {
+      if (S_tag == UNSET || AL == 0) {
         VP_ASSERT(st != ARES_SUCCESS && s == NULL, "tag_fetch_strdup without a tag is refused");
       } else {
         int printable = 1;
@@ -623,7 +636,11 @@ void harness(void)
     case 27:   /* consume_until_charset */
     case 28: { /* consume_charset */
       int    flag = vp_bool();
-      size_t cl   = vp_range(0, 3);
+#ifdef CSLEN
+      size_t cl = CSLEN;
+#else
+      size_t cl = vp_range(0, 3);
+#endif
       size_t want = 0, got;
       int    found = 0;
       for (i = 0; i < rem0; i++) {
@@ -665,7 +682,11 @@ void harness(void)
     }
     case 29: { /* consume_until_seq */
       int    req  = vp_bool();
-      size_t sl   = vp_range(0, 2);
+#ifdef CSLEN
+      size_t sl = CSLEN;
+#else
+      size_t sl = vp_range(0, 2);
+#endif
       size_t want = rem0, got;
       int    found = 0;
       for (i = 0; sl != 0 && i + sl <= rem0; i++) {
